@@ -45,11 +45,22 @@ Theorem C13_query_live : forall (e : env) (m : st) (s : spec) (a : N) (p : bytes
 Proof. exact step_query. Qed.
 Print Assumptions C13_query_live.
 
-(** C13_revert_restores is the instance of C13_read_refines for sequences with Snapshot /
-    RevertToSnapshot: the specification's revert restores the map saved by the snapshot (by
-    definition: [spec_step] on [Revert]), nested snapshots revert independently; every getter after
-    the revert therefore returns the value it had at snapshot time.  AddState is outside by the
-    property's own wording (the snapshot is marked, and a revert to it leaves the domain). *)
+(** C13_revert_restores.  In the specification, a snapshot followed by ANY span of reads, journaled
+    writes (SetBalance, SetNonce, SetCode, SetState incl. deletion), further (nested) snapshots and
+    reverts of those nested snapshots, and then the revert of that snapshot, restores the current map
+    to what it was at snapshot time, and that revert lies inside the domain; by C13_read_refines every
+    getter of the model after the revert therefore returns the value it had at snapshot time.  Nested
+    snapshots revert independently (the span may revert any snapshot taken inside it).  AddState is
+    not a span operation: by the property's own wording it is not journaled. *)
+Theorem C13_revert_restores : forall e s span outs x0 x1,
+  forallb (span_op (sp_next s)) span = true ->
+  let s1 := fst (spec_step e s Snap x0) in
+  let s2 := spec_run e s1 span outs in
+  sp_cur (fst (spec_step e s2 (Revert (sp_next s)) x1)) = sp_cur s /\
+  snd (spec_step e s2 (Revert (sp_next s)) x1) = ERes R_ok /\
+  wf_op_b s2 (Revert (sp_next s)) = (if sp_pend s2 then false else true).
+Proof. exact spec_revert_restores. Qed.
+Print Assumptions C13_revert_restores.
 
 (** expected refutations of C13_query_live on the pinned tree, one per flag *)
 Theorem C13_query_dupkey_refuted :
